@@ -544,8 +544,19 @@ def r05_6(ctx):
             ctx.violation(f"_ncp_state:store:{f.short}", f"{f.short} stores a link state that cannot be resolved: {text(n)}",
                           func=f, node=n)
         else:
-            ctx.require(f.short in allowed[name], f"_ncp_state:{name}:{f.short}",
-                        f"link state {name} is stored by {f.short}; confirmed writers of {name}: {sorted(allowed[name])}",
+            # a private helper that stores the state counts as its callers: every way of reaching it must pass through a confirmed
+            # writer (references other than calls - the method handed around as a value - count as unconfined callers)
+            def confined(g, seen=()):
+                if g.short in allowed[name]:
+                    return True
+                if g.short in seen or len(seen) > 4 or g.cls is None or g.cls.name != "AshProtocol" or not g.name.startswith("_") or g.name.startswith("__"):
+                    return False
+                calls = [c for c, _ in index(repo).callers(g.name) if not c.mod.startswith("bellows.cli")]
+                refs = [c for c, _ in index(repo).references(g.name) if not c.mod.startswith("bellows.cli")]
+                return bool(calls) and len(refs) == len(calls) and all(confined(c, seen + (g.short,)) for c in calls)
+
+            ctx.require(confined(f), f"_ncp_state:{name}:{f.short}",
+                        f"link state {name} is stored by {f.short}, which is not (only) reached from the confirmed writers of {name}: {sorted(allowed[name])}",
                         func=f, node=n)
     for name in ("error_frame_received", "rst_frame_received"):
         who_may_call(ctx, name, {"AshProtocol.frame_received"})
